@@ -191,6 +191,45 @@ theorem parseMessage_format (hs : Headers) (body : Option Bytes) (hwf : WFHeader
   rw [parseLines_format hs hwf]
   simp [flushHeader]
 
+theorem parseLinesP_of_ok : ∀ (ls : List Bytes) (k : Option Bytes) (v : Bytes) (hs : Headers) (b : Option Bytes),
+    parseLines k v ls = .ok (hs, b) → parseLinesP k v ls = (hs, .ok b) := by
+  intro ls
+  induction ls with
+  | nil =>
+    intro k v hs b h
+    simp only [parseLines, Except.ok.injEq, Prod.mk.injEq] at h
+    simp [parseLinesP, h.1, h.2]
+  | cons line rest ih =>
+    intro k v hs b h
+    rw [parseLines] at h
+    rw [parseLinesP]
+    split
+    · rename_i hc
+      simp only [hc, if_true] at h
+      exact ih _ _ _ _ h
+    · rename_i hc
+      simp only [hc, if_false] at h
+      split
+      · rename_i h10
+        simp only [h10, if_true, Except.ok.injEq, Prod.mk.injEq] at h
+        simp [h.1, h.2]
+      · rename_i h10
+        simp only [h10, if_false] at h
+        split at h
+        · cases h
+        · rename_i k' r hsf
+          split at h
+          · rename_i hs' body hp
+            simp only [Except.ok.injEq, Prod.mk.injEq] at h
+            simp only [hsf, ih _ _ _ _ hp, h.1, h.2]
+          · cases h
+
+theorem parseMessageP_format (hs : Headers) (body : Option Bytes) (hwf : WFHeaders hs) :
+    parseMessageP (formatMessage hs body) = (hs, .ok (some (body.getD []))) := by
+  have := parseMessage_format hs body hwf
+  unfold parseMessage at this
+  exact parseLinesP_of_ok _ _ _ _ _ this
+
 theorem WFHeaders_append (a b : Headers) : WFHeaders (a ++ b) ↔ WFHeaders a ∧ WFHeaders b := by
   unfold WFHeaders
   constructor
